@@ -17,6 +17,8 @@ EXPLANATION = (
     "reachable in the decoder in the production configuration, (R7) append_push_data only appends, plus the "
     "delegating TryFrom/From wrappers. R1+R3+R5 give encode/decode inverse on all constructible frames as an "
     "argument over the extracted grammars.")
+EXPLANATION_ADDED = 'R3 also requires the slices of a vectored Push to be appended by a plain forward iteration.'
+EXPLANATION = EXPLANATION + " Added while testing against seeded changes: " + EXPLANATION_ADDED
 ASSUMPTIONS = [
     "bytes::Buf::get_uN/split_to and BufMut::put_uN read/write big-endian fixed widths and panic on under-run "
     "(library contract)",
